@@ -4,6 +4,7 @@ from math import isinf
 
 from ..families import *
 from .. import universal
+from ..history import History, markers
 
 NUM = (int, float, Decimal)
 
@@ -21,28 +22,9 @@ class Monitor(object):
         self.prev_t = None
         self.expected_next = None
         self.nrec = 0
-        self.pre_ib = {}
-        self.kf_resume_blocked = False   # history marker of a known finding (see KNOWN_FINDINGS.json)
-
-    def on_pre_event(self, node, et):
-        # customers that are interrupted by a pre-emptive 'resume' schedule while still blocked
-        self.pre_ib = {}
-        for nd in self.hub.Q.transitive_nodes:
-            if nd.schedule is not None and nd.schedule.preemption == "resume":
-                ids = [i.id_number for i in nd.all_individuals if i.is_blocked]
-                if ids:
-                    self.pre_ib[nd.id_number] = ids
-
-    def _mark_history(self, Q):
-        for nid, ids in self.pre_ib.items():
-            nd = Q.nodes[nid]
-            for ind in nd.all_individuals:
-                if ind.id_number in ids and not ind.interrupted and not ind.is_blocked and ind.server:
-                    self.kf_resume_blocked = True
-        self.pre_ib = {}
 
     def violate(self, clause, detail):
-        detail["after_resume_restart_of_blocked_interrupted_customer"] = self.kf_resume_blocked
+        detail["after_resume_restart_of_blocked_interrupted_customer"] = bool(markers(self.hub).get("resume_restart_of_blocked_interrupted_customer"))
         self.hub.violate("C02", clause, detail)
 
     # -- helpers --------------------------------------------------------------------------------
@@ -66,7 +48,6 @@ class Monitor(object):
     def on_boundary(self, Q):
         hub = self.hub
         now = Q.current_time
-        self._mark_history(Q)
         if self.prev_t is not None and now < self.prev_t:
             self.violate("clock_went_back", {"from": self.prev_t, "to": now, "event": hub.cur_event})
         if self.expected_next is not None and not self.eq(now, self.expected_next):
@@ -205,7 +186,7 @@ class Spec(object):
     ]
 
     def monitors(self, cfg):
-        return [Monitor(_tol(cfg))]
+        return [History(), Monitor(_tol(cfg))]
 
     def nontrivial(self, cfg, res):
         return "records" in res.flags and "events3" in res.flags
